@@ -65,7 +65,7 @@ def harnesses(tier):
 
 ORACLES = [
     {'name': 'small-scope rule files (.rules both modes, legacy CSV) against a tag-union / neutrality specification', 'script': 'C02.py',
-     'bound': 'rule lists of length <= 3 (quick) / 4 (thorough) over a pool of 16 rules, 7 transactions, both modes; CSV lists <= 3 of 9 (static and case-significant dynamic tags); 4 list-valued dynamic tags with blank elements; CSV regular expressions shaped like expressions'},
+     'bound': 'rule lists of length <= 3 (quick, over 18 of the rules) / <= 3 and a 1-in-8 sample of length 4 (thorough) over a pool of 26 rules, 8 transactions, both modes; CSV lists <= 3 of 10 (static and case-significant dynamic tags; one row whose tags query a supplemental source); 4 list-valued dynamic tags with blank elements; CSV regular expressions shaped like expressions'},
 ]
 TRUSTED_BASE = [
     'pyvc symbolic executor', 'z3 5.1.0 / cvc5 1.0.3',
